@@ -442,10 +442,12 @@ def _run_history(case, stats, root, target, TARGET):
                                                                                "normalize_dry", "bad_content"):
             call["extra_args"] = case["extra_args"]
         # ---- run it under the seam (single actor: op log, no scheduling)
-        sim = seam.Simulation(root, Tape(values=[]), seam.Knobs(), record_unscoped=True)
+        sim = seam.Simulation(root, Tape(values=[]), seam.Knobs(), faults=st.get("faults") or [], record_unscoped=True)
         sim.claims_outside = True
-        a = sim.add_actor("c", make_call(call, root, shared_tool))
+        a = sim.add_actor("c", make_call(call, root, shared_tool), faultable=bool(st.get("faults")))
         sim.run()
+        faulted = bool(sim.fired)
+        last_ops = [(op.name, op.cls) for op in a.ops]
         if sim.bypass:
             raise seam.HarnessError(f"seam bypass: {sim.bypass[:3]}")
         out = outcome_of(call, a)
@@ -480,7 +482,12 @@ def _run_history(case, stats, root, target, TARGET):
             # tools raising is C20's business; for C17 it counts as a failed call
             status = "error"
         dry = bool(call.get("dry"))
-        if status == "error" or dry:
+        if faulted and status == "error":
+            # an injected failure: which error code comes back and whether the clean-up could complete are C16's business (it knows
+            # the excuses); C17 keeps the one thing no failure excuses: the TARGET does not change on a failed or mismatching call
+            if (snap1.get(TARGET) or (None,))[:3] != (node or (None,))[:3]:
+                V("inert", f"{kind} returned {out} under an injected failure {sim.fired} and the target changed", k)
+        elif status == "error" or dry:
             if d:
                 V("inert", f"{kind} returned {out} but the file system changed: {d}", k)
             elif outside_writes:
@@ -499,7 +506,7 @@ def _run_history(case, stats, root, target, TARGET):
         if different_digest:
             if status == "success" and not dry:
                 V("cas", f"{kind} carried base_hash {bh!r} != current {(cur_h or 'bytes:' + sha_bytes(cur))[:18]} and still succeeded", k)
-            elif clean and decodable and status == "error" and out.get("code") != "E_HASH":
+            elif clean and decodable and status == "error" and out.get("code") != "E_HASH" and not faulted:
                 # legitimate earlier stages: changes/normalize need a parseable file? no - hash check precedes parsing.
                 # CLI content mode parses the new content first (never fails here: content is valid); CLI changes parses the file first.
                 # the only call that legitimately fails earlier: CLI changes mode parses the existing file before the CAS check
@@ -530,7 +537,67 @@ def _run_history(case, stats, root, target, TARGET):
         stats.distinct("l1_history_shapes", "|".join(sig_hist))
         if len(case["steps"]) >= 2:
             stats.inc("l1_nontrivial")
-    return {"violations": viols, "log": log, "digest": digest(log)}
+    return {"violations": viols, "log": log, "digest": digest(log), "last_ops": last_ops if case["steps"] and not case["steps"][-1]["kind"].startswith("ext_") else [],
+            "fired_any": bool(case["steps"]) and not case["steps"][-1]["kind"].startswith("ext_") and faulted}
+
+
+# --------------------------------------------------------------------------- #
+# L1f: one call carrying a base_hash that does NOT match, with every operation it performs made to fail in turn
+# --------------------------------------------------------------------------- #
+
+L1F_KINDS = ["content", "changes", "normalize", "cli_content", "cli_changes", "atomic"]
+L1F_BH = ["stale", "future", "of_empty", "current"]
+L1F_ERRNOS = ["EIO", "EACCES", "EINTR", "ENOSPC", "EROFS"]
+
+
+def l1f_cases() -> list:
+    out = []
+    for kind in L1F_KINDS:
+        for bhk in L1F_BH:
+            for pre in (None, "ext_valid", "ext_binary"):
+                if pre == "ext_binary" and bhk == "current":
+                    continue
+                out.append((kind, bhk, pre))
+    return out
+
+
+def run_l1f(idx: int, stats: Stats, viols: list):
+    """A read that fails must never be taken for 'the file matches', 'there is no file' or 'nothing to compare': for every
+    operation the call performs (learned from a fault-free run of the same history) and every errno its class admits, the call is
+    repeated with that one failure.  Oracle = the L1 register model; under a fired fault only the error code is not judged."""
+    kind, bhk, pre = l1f_cases()[idx]
+    base = l1x_history(0, None)
+    init = base["init"]
+    steps = []
+    if pre == "ext_valid":
+        steps.append({"kind": "ext_valid", "bhk": "none", "text": init.replace("MARK::init", "MARK::edited_elsewhere")})
+    elif pre == "ext_binary":
+        steps.append({"kind": "ext_binary", "bhk": "none", "text": None})
+    st = {"kind": kind, "bhk": bhk, "text": init.replace("MARK::init", f"MARK::new_{idx}"), "changes": {"MARK": f"chg_{idx}"}}
+    case0 = {"layer": "L1", "init": init, "steps": steps + [st], "prop": PROP, "seed": 0, "enumerated": True, "l1f": idx}
+    ref = run_history(case0, stats)
+    stats.inc("l1f_reference_runs")
+    for v in ref["violations"]:
+        if len(viols) < 30:
+            viols.append({"clause": v["clause"], "signature": v["signature"], "detail": v["detail"], "case": case0})
+    n = 0
+    for at, (name, cls) in enumerate(ref["last_ops"]):
+        for en in L1F_ERRNOS:
+            if en not in seam.admissible(name):
+                continue
+            for sticky in (False, True):
+                st2 = dict(st, faults=[{"actor": 0, "at": at, "kind": "errno", "errno": en, "sticky": sticky}])
+                case = dict(case0, steps=steps + [st2])
+                res = run_history(case, stats)
+                n += 1
+                if res["fired_any"]:
+                    stats.inc("l1f_faulted_runs")
+                    stats.group("fault_counts", en)
+                    stats.group("l1f_fault_at_class", f"{cls}:{en}")
+                for v in res["violations"]:
+                    if len(viols) < 30:
+                        viols.append({"clause": v["clause"], "signature": v["signature"] + "|fault", "detail": v["detail"], "case": case})
+    stats.group("l1f_runs_per_case", f"{kind}/{bhk}/{pre or '-'}", n)
 
 
 # --------------------------------------------------------------------------- #
@@ -1105,6 +1172,8 @@ def units(tier: str, vseed: int) -> list:
     out = []
     for (i, j) in l2x_pairs():
         out.append({"layer": "L2x", "i": i, "j": j, "start": 0, "count": 1})
+    for i in range(len(l1f_cases())):
+        out.append({"layer": "L1f", "idx": i, "start": i, "count": 1})
     step = 400 if tier == "quick" else 4000
     for a_, first, end in l1x_plan(tier):
         for lo in range(first, end, step):
@@ -1130,6 +1199,9 @@ def run_unit(unit: dict):
         return stats, viols
     if unit["layer"] == "L2x":
         run_l2x_pair(unit["i"], unit["j"], stats, viols)
+        return stats, viols
+    if unit["layer"] == "L1f":
+        run_l1f(unit["idx"], stats, viols)
         return stats, viols
     if unit["layer"] == "L1x":
         for idx in range(unit["lo"], unit["hi"]):
